@@ -40,6 +40,11 @@ def run(ctx):
     r4_joins(ctx)
     r5_grid(ctx)
     shared.whole_cell_consumption(ctx, 'R6')
+    # "single notes exactly their set of signifiers": the only thing that may drop a signifier is the de-duplication, and it drops
+    # one exactly when an EQUAL one was read before
+    ctx.alias = {'R2': 'R11'}
+    c01.r2_dedup(ctx)
+    ctx.alias = {}
     c01.r3_export_order(ctx, g, None, 'R7')
     # cells are taken literally by the line reader, and every token is built by a listener created for that token alone
     ctx.alias = {'R1': 'R3', 'R2': 'R3'}
